@@ -568,9 +568,15 @@ def parse_mir(text):
             consts[m.group(1)] = m.group(3).strip()
             i += 1
             continue
-        if line.startswith("fn ") and line.rstrip().endswith("{"):
-            header = line.rstrip()[3:-1].strip()
-            f = _parse_header(header)
+        cm = re.match(r"^const (.*::promoted\[\d+\]): (.*) = \{\s*$", line)
+        if cm or (line.startswith("fn ") and line.rstrip().endswith("{")):
+            if cm:
+                f = Function(cm.group(1), cm.group(1))
+                f.ret = cm.group(2)
+                f.is_promoted = True
+            else:
+                header = line.rstrip()[3:-1].strip()
+                f = _parse_header(header)
             i += 1
             cur = None
             stmts = []
